@@ -81,8 +81,10 @@ MANIFEST = dict(
          "i, -k, last(), last()-k, i+j; stepsGet = plain Python indexing reaches the record list; get, item access and first; "
          "xlds_star_string / xlds_pred_string in Proofs/XPathListDeepSp.lean over xld_*_spelled and the root-independent "
          "sel3_tokenize_sp_* lemmas); C06_list_deep_spelled_example evaluates `[-2]/a/b[*]/f`, `/[last()]/[1][k=2]/f`, "
-         "`//[0+1]/c[-1][k!=2]/f`, … run against the implementation. Differential only: index spellings with blanks inside "
-         "the brackets, non-canonical spellings of P of a CHAINED selection at string level in an n0list-rooted tree (15 % of "
+         "`//[0+1]/c[-1][k!=2]/f`, … run against the implementation; chained selections behind any spelling of P below a list "
+         "root: C06_chained_list_deep_spelled (xlds_chained_string), C06_chained_list_deep_spelled_example "
+         "(`/[-1]/[last()][i=1]/t[s=B]/q`, …). Differential only: index spellings with blanks inside "
+         "the brackets (15 % of "
          "the generated trees keep a list root, all forms and chained selections, evaluator and model stream), a scalar `items` "
          "(fix C06-h: a single value does not satisfy a condition, that parent contributes nothing - before, IndexError left the "
          "fan-out loop and hid the selections of all other parents; C06_scalar_inner_example; 20 % of the generated order lists "
